@@ -117,6 +117,17 @@ func genTarget(r *RNG) *iosDev {
 			}
 		}
 	}
+	if r.Chance(25) {
+		for i, k := 0, 1+r.Intn(2); i < k; i++ {
+			rt := fmt.Sprintf("2001:db8:%d::/48 %s", i+1, Pick(r, []string{"2001:db8:ff::1", "2001:db8:ff::2"}))
+			if useVRF && r.Chance(40) {
+				rt = "vrf V1 " + rt
+			}
+			if !contains(b.Routes6, rt) {
+				b.Routes6 = append(b.Routes6, rt)
+			}
+		}
+	}
 	return b
 }
 
@@ -251,6 +262,22 @@ func genDevice(r *RNG, b *iosDev) (*iosDev, []string) {
 			} else if len(b.Routes) > 0 {
 				a.Routes = append(a.Routes, "10.7.0.0 255.255.0.0 10.1.1.254")
 				say("route-extra")
+			}
+			switch {
+			case len(a.Routes6) > 0 && r.Chance(50):
+				f := strings.Fields(a.Routes6[0])
+				f[len(f)-1] = Pick(r, []string{"2001:db8:ff::1", "2001:db8:ff::2", "2001:db8:ff::9"})
+				if nr := strings.Join(f, " "); !contains(a.Routes6, nr) {
+					a.Routes6[0] = nr
+					say("route6-change-gw")
+				}
+			case len(a.Routes6) > 0 && r.Chance(50):
+				a.Routes6 = a.Routes6[1:]
+				say("route6-missing")
+			case r.Chance(50) && !contains(a.Routes6, "2001:db8:77::/48 2001:db8:ff::7"):
+				// managed table: an extra route; table without target routes: must be left alone
+				a.Routes6 = append(a.Routes6, "2001:db8:77::/48 2001:db8:ff::7")
+				say("route6-extra-or-unmanaged")
 			}
 		}
 	}
@@ -431,6 +458,8 @@ func parseDev(text string) *iosDev {
 			acl = strings.TrimPrefix(line, "ip access-list extended ")
 			d.ACLs[acl] = nil
 			d.AOrder = append(d.AOrder, acl)
+		case strings.HasPrefix(line, "ipv6 route "):
+			d.Routes6 = append(d.Routes6, strings.TrimPrefix(line, "ipv6 route "))
 		case strings.HasPrefix(line, "ip route "):
 			d.Routes = append(d.Routes, strings.TrimPrefix(line, "ip route "))
 		default:
@@ -442,7 +471,7 @@ func parseDev(text string) *iosDev {
 }
 
 // unmanagedView: definitions that must stay exactly as they are.
-func unmanagedView(d *iosDev, managedIntf map[string]bool, vrfs map[string]bool, acls map[string]bool) string {
+func unmanagedView(d *iosDev, managedIntf map[string]bool, vrfs map[string]bool, acls map[string]bool, vrfs6 map[string]bool) string {
 	var sb strings.Builder
 	sb.WriteString(strings.Join(d.Unknown, "\n") + "\n")
 	for _, i := range d.Intfs {
@@ -469,6 +498,14 @@ func unmanagedView(d *iosDev, managedIntf map[string]bool, vrfs map[string]bool,
 	}
 	sort.Strings(rs)
 	sb.WriteString("routes " + strings.Join(rs, " | ") + "\n")
+	rs = nil
+	for _, r := range d.Routes6 {
+		if !vrfs6[routeVRF(r)] {
+			rs = append(rs, r)
+		}
+	}
+	sort.Strings(rs)
+	sb.WriteString("ipv6 routes " + strings.Join(rs, " | ") + "\n")
 	return sb.String()
 }
 
@@ -526,8 +563,13 @@ func run(ctx *Ctx) *Result {
 			vrfs[routeVRF(r)] = true
 			rvrfs[routeVRF(r)] = true
 		}
+		// ipv6 routes likewise, per routing table
+		rvrfs6 := map[string]bool{}
+		for _, r := range c.spoc.Routes6 {
+			rvrfs6[routeVRF(r)] = true
+		}
 		withRoutes := len(c.spoc.Routes) > 0
-		wantView := c.spoc.managedView(intfs, rvrfs, withRoutes)
+		wantView := c.spoc.managedView(intfs, rvrfs, withRoutes, rvrfs6)
 		// unmanaged ACLs: bound to unmanaged interfaces, or untagged and unbound
 		uACL := map[string]bool{}
 		for _, i := range c.dev.Intfs {
@@ -544,7 +586,7 @@ func run(ctx *Ctx) *Result {
 				uACL[n] = true
 			}
 		}
-		frame0 := unmanagedView(c.dev, managed, rvrfs, uACL)
+		frame0 := unmanagedView(c.dev, managed, rvrfs, uACL, rvrfs6)
 		sig := func(pred string) map[string]any { return map[string]any{"pred": pred} }
 		ex := &executor{d: c.dev.clone()}
 		var states []*iosDev
@@ -565,7 +607,7 @@ func run(ctx *Ctx) *Result {
 			res.Sample(map[string]any{"device": c.Dev, "netspoc": c.Spoc, "script": out, "mutations": c.Note})
 		}
 		if prop == "C02" {
-			if got := final.managedView(intfs, rvrfs, withRoutes); got != wantView {
+			if got := final.managedView(intfs, rvrfs, withRoutes, rvrfs6); got != wantView {
 				res.Fail(sig("not_converged"), "after executing the script the managed part differs from the target:\n"+got+"-- want\n"+wantView, c)
 				return
 			}
@@ -580,7 +622,7 @@ func run(ctx *Ctx) *Result {
 			} else if strings.TrimSpace(out2) != "" {
 				res.Fail(sig("second_compare_not_empty"), "second compare reports changes:\n"+out2, c)
 			}
-			if len(cmds) == 0 && c.dev.managedView(intfs, rvrfs, withRoutes) != wantView {
+			if len(cmds) == 0 && c.dev.managedView(intfs, rvrfs, withRoutes, rvrfs6) != wantView {
 				res.Fail(sig("unchanged_reported_for_different_device"), "empty script although the device is not equivalent", c)
 			}
 		}
@@ -623,7 +665,7 @@ func run(ctx *Ctx) *Result {
 			}
 		}
 		if prop == "C07" {
-			if got := unmanagedView(final, managed, rvrfs, uACL); got != frame0 {
+			if got := unmanagedView(final, managed, rvrfs, uACL, rvrfs6); got != frame0 {
 				res.Fail(sig("unmanaged_content_changed"), "unmanaged content differs after the script:\n"+got+"-- before\n"+frame0, c)
 			}
 		}
@@ -651,7 +693,7 @@ func run(ctx *Ctx) *Result {
 				if bad {
 					continue
 				}
-				if got := ex2.d.managedView(intfs, rvrfs, withRoutes); got != wantView {
+				if got := ex2.d.managedView(intfs, rvrfs, withRoutes, rvrfs6); got != wantView {
 					res.Fail(sig("resume_not_converged"), fmt.Sprintf("cut after %d commands: second run ends in\n%s-- want\n%s", k+1, got, wantView), c)
 				}
 			}
